@@ -188,12 +188,13 @@ def pyfftw_call(array_in, array_out, direction='forward', axes=None,
         [planning_effort], direction, halfcomplex, array_in.ndim)
     must_copy_array_in = fftw_plan_in is None and planner_destroys
 
+    # The plan is executed on `array_in`, hence it must not be allowed to
+    # destroy its input (no 'FFTW_DESTROY_INPUT' flag)
     if must_copy_array_in:
         plan_arr_in = np.empty_like(array_in)
-        flags = [_flag_odl_to_pyfftw(planning_effort), 'FFTW_DESTROY_INPUT']
     else:
         plan_arr_in = array_in
-        flags = [_flag_odl_to_pyfftw(planning_effort)]
+    flags = [_flag_odl_to_pyfftw(planning_effort)]
 
     # The planner also overwrites the output array, which is the input array
     # for in-place transforms
